@@ -107,6 +107,31 @@ def run(ctx):
             return second if first == second else first
         return second if first is second else None
 
+    def via_edited_document(x):
+        # the caller takes the object's document (obj.__json__(), the encoder's default(), pydantic's python dump) and edits
+        # its own copy - strips the tag, renames a field, empties the nested documents; what the library writes for the
+        # object afterwards is what it wrote before
+        def wreck(d, depth=0):
+            if isinstance(d, dict):
+                for v in list(d.values()):
+                    wreck(v, depth + 1)
+                d.pop("__measured__", None)
+                if "name" in d:
+                    d["name"] = "edited by the caller"
+                d["note"] = "the caller's own field"
+            elif isinstance(d, list):
+                for v in d:
+                    wreck(v, depth + 1)
+                del d[:]
+
+        for take in (lambda: x.__json__(), lambda: MeasuredJSONEncoder().default(x), lambda: adapters[type(x)].dump_python(x, mode="json")):
+            try:
+                doc = take()
+            except Exception:
+                continue
+            wreck(doc)
+        return json.loads(json.dumps(x, cls=MeasuredJSONEncoder), cls=MeasuredJSONDecoder)
+
     def via_install(x):
         # the process-wide switch: measured.json.install() ... uninstall()
         from measured import json as mjson
@@ -127,6 +152,7 @@ def run(ctx):
         "json": lambda x: json.loads(json.dumps(x, cls=MeasuredJSONEncoder), cls=MeasuredJSONDecoder),
         "codecs_installed": via_codecs_installed,
         "json-install": via_install,
+        "json-after-the-caller-edited-an-earlier-document": via_edited_document,
         "codecs_installed-options": via_codecs_installed_with_options,
         "pydantic-same-document-twice": via_same_document_twice,
         "pydantic-python": lambda x: adapters[type(x)].validate_python(adapters[type(x)].dump_python(x)),
@@ -200,7 +226,7 @@ def run(ctx):
             ctx.count(f"quantities_x_codecs/{cname}/{mkind}")
             ctx.distinct((cname, "quantity", pools.shape_class(factors), mkind))
             case = {"quantity": [model.enc_mag(mag), term], "codec": cname}
-            uses_unit_str = cname in ("json", "codecs_installed", "json-install", "codecs_installed-options", "pydantic-same-document-twice", "pydantic-python", "pydantic-json", "pydantic-json-mode-python", "sql-composite")
+            uses_unit_str = cname in ("json", "json-after-the-caller-edited-an-earlier-document", "codecs_installed", "json-install", "codecs_installed-options", "pydantic-same-document-twice", "pydantic-python", "pydantic-json", "pydantic-json-mode-python", "sql-composite")
             if cname == "pydantic-python":
                 uses_unit_str = False  # python mode hands the Quantity object through
             try:
